@@ -296,32 +296,46 @@ def evaluate(case):
                 compare(res, f"mr:nan-animal:{variant}", outN, out, 0.0, "insert an all-NaN animal")
 
     # ---- DataPipe API ------------------------------------------------------------------
+    # For half of the cases the judged example is the SECOND one of the stream, behind a leading example of a
+    # different image size (one pass over a mixed-resolution stream): per-pass state must not leak between examples.
+    lead_on = (int(H) + int(W) + int(round(float(sigma) * 10))) % 2 == 1
+    if lead_on:
+        res.cls("dp:behind-differently-sized-example")
+
+    def stream(ex):
+        if not lead_on:
+            return [ex]
+        lead = dict(ex)
+        lead["image"] = torch.zeros(1, 1, max(int(stride), int(H) // 2), int(W) + 3 * int(stride))
+        return [lead, ex]
+
+    n_expected = 2 if lead_on else 1
     if variant == "single":
         rank3 = bool(case.get("rank3", False))
         if rank3:
             ex = {"image": img, "instance": T(P32[0][None])}
-            mk = lambda: cmod.ConfidenceMapGenerator([ex], sigma=sigma, output_stride=stride, instance_key="instance")  # noqa: E731
+            mk = lambda: cmod.ConfidenceMapGenerator(stream(ex), sigma=sigma, output_stride=stride, instance_key="instance")  # noqa: E731
         else:
             ex = {"image": img, "instances": T(P32[None])}
-            mk = lambda: cmod.ConfidenceMapGenerator([ex], sigma=sigma, output_stride=stride)  # noqa: E731
+            mk = lambda: cmod.ConfidenceMapGenerator(stream(ex), sigma=sigma, output_stride=stride)  # noqa: E731
         got = runner.guarded(res, "dp:single", lambda: list(mk()))
         if got is not runner.FAILED:
-            if len(got) != 1 or "confidence_maps" not in got[0]:
+            if len(got) != n_expected or "confidence_maps" not in got[-1]:
                 res.fail("dp:single:protocol", f"{len(got)} examples / keys {sorted(got[0]) if got else None}")
             else:
-                check_maps(res, "dp:single", got[0]["confidence_maps"], P, case, reduce_animals=False)
+                check_maps(res, "dp:single", got[-1]["confidence_maps"], P, case, reduce_animals=False)
     elif variant == "multi":
         ex = {"image": img, "instances": T(padded(P32, pad)[None]), "num_instances": n_inst}
         got = runner.guarded(
             res,
             "dp:multi",
-            lambda: list(cmod.MultiConfidenceMapGenerator([ex], sigma=sigma, output_stride=stride, centroids=False)),
+            lambda: list(cmod.MultiConfidenceMapGenerator(stream(ex), sigma=sigma, output_stride=stride, centroids=False)),
         )
         if got is not runner.FAILED:
-            if len(got) != 1 or "confidence_maps" not in got[0]:
+            if len(got) != n_expected or "confidence_maps" not in got[-1]:
                 res.fail("dp:multi:protocol", f"{len(got)} examples / keys {sorted(got[0]) if got else None}")
             else:
-                check_maps(res, "dp:multi", got[0]["confidence_maps"], P, case, reduce_animals=True)
+                check_maps(res, "dp:multi", got[-1]["confidence_maps"], P, case, reduce_animals=True)
     else:
         ex = {
             "image": img,
@@ -332,13 +346,13 @@ def evaluate(case):
         got = runner.guarded(
             res,
             "dp:centroid",
-            lambda: list(cmod.MultiConfidenceMapGenerator([ex], sigma=sigma, output_stride=stride, centroids=True)),
+            lambda: list(cmod.MultiConfidenceMapGenerator(stream(ex), sigma=sigma, output_stride=stride, centroids=True)),
         )
         if got is not runner.FAILED:
-            if len(got) != 1 or "centroids_confidence_maps" not in got[0]:
+            if len(got) != n_expected or "centroids_confidence_maps" not in got[-1]:
                 res.fail("dp:centroid:protocol", f"{len(got)} examples / keys {sorted(got[0]) if got else None}")
             else:
-                check_maps(res, "dp:centroid", got[0]["centroids_confidence_maps"], P, case, reduce_animals=True)
+                check_maps(res, "dp:centroid", got[-1]["centroids_confidence_maps"], P, case, reduce_animals=True)
 
     res.n_evals = max(res.n_evals, 1)
     return res
